@@ -66,6 +66,12 @@ type Client struct {
 	// SendRawTransaction calls (one entry consumed per call). "" or exhausted:
 	// honest node behaviour.
 	SendAnswers []string
+	// Dialect: "" answers with the chain package's error values directly;
+	// "bitcoind", "bitcoind28", "btcd", "btcd-legacy" answer with the message
+	// such a backend words its refusal in, mapped the way the repository's
+	// client for that backend maps it (BitcoindClient.MapRPCErr itself; for
+	// btcd the same passes over the real tables, see harness/probes/chain).
+	Dialect string
 	// BeforeSend, if set, observes every SendRawTransaction call before the
 	// node sees the transaction (crash-before-broadcast faults).
 	BeforeSend func(tx *wire.MsgTx)
@@ -312,15 +318,15 @@ func (c *Client) SendRawTransaction(tx *wire.MsgTx, allowHighFees bool) (*chainh
 	case "reject-fee":
 		rec.Answer = "reject"
 		c.Fired["send.reject-fee"]++
-		return nil, chain.ErrInsufficientFee
+		return nil, c.answer("fee", id)
 	case "reject-generic":
 		rec.Answer = "reject"
 		c.Fired["send.reject-generic"]++
-		return nil, errors.New("64: scriptsig-not-pushonly")
+		return nil, c.answer("generic", id)
 	case "reject-conflict":
 		rec.Answer = "reject"
 		c.Fired["send.reject-conflict"]++
-		return nil, chain.ErrMempoolConflict
+		return nil, c.answer("conflict", id)
 	case "accept-but-known":
 		// the node accepts it and answers "already known" (a retry whose
 		// first attempt got through): classes that are consistent with node
@@ -333,16 +339,16 @@ func (c *Client) SendRawTransaction(tx *wire.MsgTx, allowHighFees bool) (*chainh
 		return &id, nil
 	case errors.Is(err, ErrAlreadyInMempool):
 		rec.Answer = "in-mempool"
-		return nil, chain.ErrTxAlreadyInMempool
+		return nil, c.answer("in-mempool", id)
 	case errors.Is(err, ErrAlreadyConfirmed):
 		rec.Answer = "confirmed"
-		return nil, chain.ErrTxAlreadyConfirmed
+		return nil, c.answer("confirmed", id)
 	case errors.Is(err, ErrMempoolConflict):
 		rec.Answer = "reject"
-		return nil, chain.ErrMempoolConflict
+		return nil, c.answer("conflict", id)
 	default:
 		rec.Answer = "reject"
-		return nil, chain.ErrMissingInputsOrSpent
+		return nil, c.answer("missing", id)
 	}
 }
 
@@ -759,4 +765,72 @@ func (c *Client) Best() waddrmgr.BlockStamp {
 	c.mu.Lock()
 	defer c.mu.Unlock()
 	return c.best
+}
+
+// answer words a refusal the way the modelled backend does and maps it the
+// way the repository's client for that backend does.
+func (c *Client) answer(class string, id chainhash.Hash) error {
+	var raw string
+	switch c.Dialect {
+	case "":
+		switch class {
+		case "fee":
+			return chain.ErrInsufficientFee
+		case "generic":
+			return errors.New("64: scriptsig-not-pushonly")
+		case "conflict":
+			return chain.ErrMempoolConflict
+		case "in-mempool":
+			return chain.ErrTxAlreadyInMempool
+		case "confirmed":
+			return chain.ErrTxAlreadyConfirmed
+		default:
+			return chain.ErrMissingInputsOrSpent
+		}
+	case "bitcoind", "bitcoind28":
+		switch class {
+		case "fee":
+			raw = "-26: insufficient fee, rejecting replacement " + id.String()
+		case "generic":
+			raw = "-26: scriptsig-not-pushonly"
+		case "conflict":
+			raw = "-26: txn-mempool-conflict"
+		case "in-mempool":
+			raw = "-27: txn-already-in-mempool"
+		case "confirmed":
+			raw = "-27: Transaction already in block chain"
+			if c.Dialect == "bitcoind28" {
+				raw = "-27: Transaction outputs already in utxo set"
+			}
+		default:
+			raw = "-25: bad-txns-inputs-missingorspent"
+		}
+		return (*chain.BitcoindClient)(nil).MapRPCErr(errors.New(raw))
+	default: // btcd, btcd-legacy
+		legacy := c.Dialect == "btcd-legacy"
+		switch class {
+		case "fee":
+			raw = "-26: replacement transaction " + id.String() + " has an insufficient fee rate: needs more than 1000, has 900"
+		case "generic":
+			raw = "-26: transaction " + id.String() + " has a non-standard input"
+		case "conflict":
+			raw = "-26: output " + id.String() + ":0 already spent in mempool"
+			if legacy {
+				raw = "-26: output " + id.String() + ":0 already spent by transaction " + id.String() + " in the memory pool"
+			}
+		case "in-mempool":
+			raw = "-26: already have transaction in mempool " + id.String()
+			if legacy {
+				raw = "-27: already have transaction " + id.String()
+			}
+		case "confirmed":
+			raw = "-27: transaction already exists in blockchain " + id.String()
+			if legacy {
+				raw = "-27: transaction already exists"
+			}
+		default:
+			raw = "-25: orphan transaction " + id.String() + " references outputs of unknown or fully-spent transaction " + id.String()
+		}
+		return chain.VerifBtcdMapRPCErr(errors.New(raw), !legacy)
+	}
 }
